@@ -32,6 +32,8 @@ def main():
         ctx.model_broken = 'staged falcon does not import: %r\n%s' % (e, traceback.format_exc()[-1500:])
         sys.exit(common.finish(ctx))
     common.build(ctx, clean=(a.tier == 'thorough'))
+    if a.tier == 'thorough' and not ctx.model_broken and not ctx.proof_broken and not a.replay:
+        common.coqchk(ctx)
     if not ctx.model_broken:
         mod = importlib.import_module(a.prop.lower())
         try:
